@@ -170,6 +170,21 @@ class VOpaque(V):
 
 
 @dataclass
+class VExternal(V):
+    """Something reached through an import that the world does not model (dotted name)."""
+
+    dotted: str
+    bound: Optional[V] = None
+    kind = "external"
+
+
+# pure str -> str library functions / methods: modelled as uninterpreted functions (sound for proving;
+# a proof that needs more than "it is a function" fails and is reported with the native search as replay)
+PURE_STR_FUNCS = {"urllib.parse.unquote", "urllib.parse.quote", "urllib.parse.unquote_plus", "os.path.normpath", "os.path.normcase", "posixpath.normpath", "unicodedata.normalize"}
+PURE_STR_METHODS = {"lower", "upper", "casefold", "strip", "rstrip", "lstrip", "title", "capitalize", "swapcase"}
+
+
+@dataclass
 class VDyn(V):
     """Value of statically unknown kind.  alts: list of alternative kind descriptors:
     'none','bool','int','float','str','notimpl','other', or ('obj', ClassName)."""
@@ -251,8 +266,10 @@ class World:
             self.global_decls.append(decl)
 
     def class_id(self, name: str) -> str:
-        names = sorted(self.classes)
-        return smt.sint(1000 + names.index(name)) if name in self.classes else smt.sint(1)
+        ids = self.__dict__.setdefault("_class_ids", {})
+        if name not in ids:
+            ids[name] = 1000 + len(ids)
+        return smt.sint(ids[name])
 
 
 # ----------------------------------------------------------------------------
@@ -550,7 +567,11 @@ class Interp:
             ns = self.world.namespaces.get(v.name, {})
             if name in ns:
                 return ns[name]
-            raise Unsupported(f"module attribute {v.name}.{name}")
+            return VExternal(f"{v.name}.{name}")
+        if isinstance(v, VExternal):
+            return VExternal(f"{v.dotted}.{name}")
+        if isinstance(v, VStr) and name in PURE_STR_METHODS:
+            return VExternal(f"str.{name}", bound=v)
         if name == "__class__":
             return self.type_of(ctx, v)
         if isinstance(v, VClass):
@@ -684,6 +705,9 @@ class Interp:
 
     def _identity(self, a: V, b: V) -> str:
         if isinstance(a, VObj) and isinstance(b, VObj):
+            # an object has exactly one class; an opaque object (cls None) is an instance of none of the known classes
+            if a.cls != b.cls:
+                return FALSE
             return Eq(a.oid, b.oid)
         if isinstance(a, VNone) and isinstance(b, VNone):
             return TRUE
@@ -798,7 +822,7 @@ class Interp:
         if isinstance(a, VBool) and isinstance(b, VBool):
             return Eq(a.t, b.t)
         if isinstance(a, VObj) and isinstance(b, VObj):
-            return Eq(a.oid, b.oid)
+            return self._identity(a, b)
         if isinstance(a, VClass) and isinstance(b, VClass):
             if a.name is not None and b.name is not None:
                 return TRUE if a.name == b.name else FALSE
@@ -843,6 +867,20 @@ class Interp:
             return self.call_function(ctx, f.qualname, a, kwargs)
         if isinstance(f, VExcClass):
             return VExc(f.name, args)
+        if isinstance(f, VExternal):
+            allargs = ([f.bound] if f.bound is not None else []) + [force(ctx, a) for a in args]
+            if (f.dotted in PURE_STR_FUNCS or (f.dotted.startswith("str.") and f.bound is not None)) and not kwargs and allargs and all(isinstance(a, VStr) for a in allargs):
+                nm = "uf_" + f.dotted.replace(".", "_")
+                lits = [a.t for a in allargs[1:]]
+                if all(smt.is_str_lit(x) for x in lits):
+                    import hashlib
+
+                    if lits:
+                        nm += "_" + hashlib.sha1("|".join(lits).encode()).hexdigest()[:6]
+                    self.world.declare_global(f"(declare-fun {nm} (String) String)")
+                    ctx.ghost.setdefault("uninterpreted", []).append(f.dotted)
+                    return VStr(f"({nm} {allargs[0].t})")
+            raise Unsupported(f"call of external {f.dotted}")
         if isinstance(f, VClass):
             if f.name == "str" and len(args) == 1:
                 return VStr(self.format_value(ctx, args[0]))
